@@ -28,7 +28,7 @@ ASSUMPTIONS = [
 ]
 FLOORS = {
     "quick": {"build_vs_reference": 20000, "parse_roundtrip": 20000, "datagrams": 1500,
-              "datagram_messages": 5000, "type_code_pairs": 110, "datagrams_after_a_malformed_one": 300},
+              "datagram_messages": 5000, "type_code_pairs": 110, "datagrams_after_a_malformed_one": 300, "datagrams_repeated_verbatim": 300},
     "thorough": {"build_vs_reference": 1000000, "parse_roundtrip": 1000000, "datagrams": 50000,
                  "type_code_pairs": 110},
 }
@@ -124,7 +124,7 @@ class _Endpoint:
         self.p = P()
 
 
-def check_datagram(S, H, msgs, multicast, ctx, endpoint=None, noise=None):
+def check_datagram(S, H, msgs, multicast, ctx, endpoint=None, noise=None, repeat=0):
     ep = endpoint or _Endpoint(S)
     if noise is not None:
         # a datagram whose tail is not a message (valid leading messages, then garbage / a truncated message), from another
@@ -140,6 +140,13 @@ def check_datagram(S, H, msgs, multicast, ctx, endpoint=None, noise=None):
     data = b"".join(refwire.encode_someip(m) for m in msgs)
     addr = ("192.0.2.7", 30501)
     p.datagram_received(data, addr, multicast)
+    if repeat:
+        # the same bytes again from the same peer (an unchanged cyclic event bundle, a repeated fire-and-forget call with
+        # session handling off): every datagram is delivered, whatever came before it
+        for _ in range(repeat):
+            p.datagram_received(data, addr, multicast)
+        msgs = list(msgs) * (repeat + 1)
+        ctx.count("datagrams_repeated_verbatim", repeat)
     ctx.count("datagrams")
     ctx.count("datagram_messages", len(msgs))
     ok = len(got) == len(msgs) and all(
@@ -150,7 +157,7 @@ def check_datagram(S, H, msgs, multicast, ctx, endpoint=None, noise=None):
                       dict(expected=len(msgs), delivered=len(got),
                            delivered_ids=[(g[0].service_id, g[0].method_id, g[0].session_id) for g in got][:12],
                            expected_ids=[(m["sid"], m["mid"], m["sess"]) for m in msgs][:12]),
-                      dict(kind="dgram", msgs=msgs, multicast=multicast, noise=noise))
+                      dict(kind="dgram", msgs=msgs[: len(msgs) // (repeat + 1)], multicast=multicast, noise=noise, repeat=repeat))
     return ok
 
 
@@ -235,7 +242,7 @@ def run(spec, ctx):
             lead = b"".join(refwire.encode_someip(gen_msg(rng, 40)[0]) for _ in range(rng.choice((1, 1, 2, 3))))
             tail, _cls = gen_suffix(rng)
             noise = lead + (tail if _cls not in ("none", "looks-like-message") else refwire.encode_someip(gen_msg(rng, 40)[0])[:rng.randrange(1, 20)])
-        check_datagram(S, H, msgs, mc, ctx, endpoint if i % 4 else None, noise)
+        check_datagram(S, H, msgs, mc, ctx, endpoint if i % 4 else None, noise, rng.choice((1, 2)) if i % 6 == 1 else 0)
         ctx.case(("dgram", k, tuple(keys), mc), k > 1,
                  sample=dict(kind="datagram", messages=k, multicast=mc,
                              ids=[(m["sid"], m["mid"], len(m["payload"])) for m in msgs]) if i < 1 else None)
@@ -249,5 +256,5 @@ def replay(doc, ctx):
     if doc["kind"] == "msg":
         check_message(H, doc["msg"], doc["suffix"], ctx)
     else:
-        check_datagram(S, H, doc["msgs"], doc["multicast"], ctx, None, doc.get("noise"))
+        check_datagram(S, H, doc["msgs"], doc["multicast"], ctx, None, doc.get("noise"), doc.get("repeat", 0))
     ctx.case(("replay",), True)
